@@ -86,6 +86,21 @@ func contractPackages(verif string) []string {
 	return out
 }
 
+// depPackages lists dependency packages that have contracts under /verif/contracts/deps (loaded with syntax)
+func depPackages(verif string) []string {
+	var out []string
+	root := filepath.Join(verif, "contracts", "deps")
+	filepath.Walk(root, func(p string, info os.FileInfo, err error) error {
+		if err == nil && !info.IsDir() && info.Name() == "contracts.txt" {
+			rel, _ := filepath.Rel(root, filepath.Dir(p))
+			out = append(out, rel)
+		}
+		return nil
+	})
+	sort.Strings(out)
+	return out
+}
+
 type target struct {
 	p   *Pkg
 	key string
@@ -179,6 +194,7 @@ func cmdCheck(args []string) int {
 	for _, rel := range contractPackages(eng.verif) {
 		pats = append(pats, "./"+rel)
 	}
+	pats = append(pats, depPackages(eng.verif)...)
 	if err := eng.load(pats, nil); err != nil {
 		// the tree does not compile: not a property verdict
 		fmt.Fprintln(os.Stderr, "govc: cannot load /repo:", err)
